@@ -404,13 +404,34 @@ func c16Canon(raw []byte) string {
 func TestVerifC16(t *testing.T) {
 	env := verifx.LoadEnv("C16")
 	res := env.NewResult()
+	// The whole family runs twice: on a plain server, and on a server configured with a SchemaCache
+	// on which tools with *inferred* schemas for the same Go input/output types were registered
+	// first (an explicit schema must still be the one that is enforced).
+	c16Suite(t, env, res, "", false)
+	c16Suite(t, env, res, "/schema-cache", true)
+	env.Finish(res)
+}
+
+func c16Suite(t *testing.T, env *verifx.Env, res *verifx.Result, suffix string, withCache bool) {
 	ctx := context.Background()
 
 	// ---------- inputs
-	in := env.NewCases(res, "input-schemas-x-arguments")
+	in := env.NewCases(res, "input-schemas-x-arguments"+suffix)
 	var seen *c16In
 	handlerRuns := 0
-	s := NewServer(&Implementation{Name: "srv", Version: "1"}, &ServerOptions{Logger: quietLogger})
+	sopts := &ServerOptions{Logger: quietLogger}
+	if withCache {
+		sopts.SchemaCache = NewSchemaCache()
+	}
+	s := NewServer(&Implementation{Name: "srv", Version: "1"}, sopts)
+	if withCache {
+		AddTool(s, &Tool{Name: "inferred-in"}, func(ctx context.Context, r *CallToolRequest, v c16In) (*CallToolResult, any, error) {
+			return &CallToolResult{}, nil, nil
+		})
+		AddTool(s, &Tool{Name: "inferred-out"}, func(ctx context.Context, r *CallToolRequest, v map[string]any) (*CallToolResult, map[string]any, error) {
+			return nil, map[string]any{}, nil
+		})
+	}
 	schemas := c16InputSchemas()
 	for _, sc := range schemas {
 		AddTool(s, &Tool{Name: sc.name, InputSchema: sc.schema}, func(ctx context.Context, r *CallToolRequest, v c16In) (*CallToolResult, any, error) {
@@ -531,7 +552,7 @@ func TestVerifC16(t *testing.T) {
 	}
 
 	// ---------- outputs
-	out := env.NewCases(res, "output-types-x-returns")
+	out := env.NewCases(res, "output-types-x-returns"+suffix)
 	for _, oc := range c16OutCases() {
 		idx, mine := out.Next()
 		if !mine {
@@ -580,5 +601,4 @@ func TestVerifC16(t *testing.T) {
 			out.Record(idx, "output-ok "+strings.TrimPrefix(oc.tool, "out-"), 1, desc)
 		}
 	}
-	env.Finish(res)
 }
